@@ -399,4 +399,52 @@ def build():
     p.models["TRef.get_result"] = tail_get_result
     p.models["enter:retrctx"] = lambda i, cm: cm
     p.models["exit:retrctx"] = lambda i, cm, e: False
+    # ---- print_progress: reporting must never turn into the outcome of a call.  It is called from the completion callbacks, from the
+    # sequential loop and from its `finally` clause - after a failure, after close(), with any counters.  The contracts that call it treat it
+    # as a no-op (log call); this is the real body, for the state of a sequential run (n_jobs=1: Parallel._call returns before the parallel
+    # set-up, so only what _reset_run_tracking / _get_sequential_output assign exists) and of a parallel run.
+    def progress_self(sequential):
+        def mk(interp):
+            ctx = interp.ctx
+            # what Parallel.__init__ and the head of Parallel._call assign before either kind of run ...
+            o = SObj("Parallel", dict(verbose=INT.fresh(ctx, "verbose"), n_tasks=Opt(INT).fresh(ctx, "n_tasks"), _start_time=REAL.fresh(ctx, "t0"), _running=False,
+                                      return_generator=BOOL.fresh(ctx, "retgen"), _lock=Opaque("plock", None)))
+            # ... then the REAL _reset_run_tracking (the first thing Parallel.__call__ does), so that the attributes of a run are the ones the code sets
+            interp.call_method(o, "_reset_run_tracking", [], {})
+            # a sequential run (n_jobs == 1: _call returns _get_sequential_output right after that) assigns only _iterating / _original_iterator;
+            # a parallel run goes through the set-up of _call, which also assigns _pre_dispatch_amount
+            o.fields["_iterating"] = BOOL.fresh(ctx, "iterating")
+            o.fields["_original_iterator"] = Opt(OpaqueOf("taskiter")).fresh(ctx, "it")
+            if not sequential:
+                o.fields["_pre_dispatch_amount"] = INT.fresh(ctx, "pre")
+                ctx.assume(ops.as_int_term(o.fields["_pre_dispatch_amount"]) >= 0)
+            # progress is reported at any moment of the run: arbitrary counters and flags
+            for k in ("n_completed_tasks", "n_dispatched_tasks", "n_dispatched_batches"):
+                o.fields[k] = INT.fresh(ctx, k)
+            for k in ("_aborting", "_exception", "_aborted"):
+                o.fields[k] = BOOL.fresh(ctx, k)
+            g = lambda k: ops.as_int_term(o.fields[k])
+            ctx.assume(z3.And(g("verbose") >= 0, g("n_completed_tasks") >= 0, g("n_dispatched_tasks") >= g("n_completed_tasks"), g("n_dispatched_batches") >= 0))
+            if o.fields["n_tasks"] is not None:
+                ctx.assume(ops.as_int_term(o.fields["n_tasks"]) >= 0)
+            o.fields["__complete__"] = True   # nothing else has been assigned: reading another attribute is an AttributeError
+            return o
+        return mk
+
+    p.models["contextlib.nullcontext"] = lambda i, a, k: Opaque("nullctx", None)
+    p.models["enter:nullctx"] = lambda i, cm: None
+    p.models["exit:nullctx"] = lambda i, cm, e: False
+    p.models["time.time"] = lambda i, a, k: REAL.fresh(i.ctx, "now")
+    p.models["builtin:floor"] = lambda i, a, k: INT.fresh(i.ctx, "floor")
+    pglob = {"floor": lambda interp: _Fn(lambda i, a, k: INT.fresh(i.ctx, "floor")), "log10": lambda interp: _Fn(lambda i, a, k: REAL.fresh(i.ctx, "log10")),
+             "short_format_time": lambda interp: _Fn(lambda i, a, k: STR.fresh(i.ctx, "fmt")),
+             "_verbosity_filter": lambda interp: _Fn(lambda i, a, k: BOOL.fresh(i.ctx, "filtered"))}
+    for sequential in (True, False):
+        p.add(Contract(
+            PAR, "Parallel.print_progress", variant="sequential-run" if sequential else "parallel-run", props=["C04", "C16", "C01"], globals=pglob,
+            inline={"_is_completed", "_reset_run_tracking"},
+            params=dict(self=progress_self(sequential)),
+            ensures={"only_reports": "self.n_completed_tasks == old(self.n_completed_tasks) and self.n_dispatched_tasks == old(self.n_dispatched_tasks)"},
+            # no exsures: whatever the state of the run, reporting progress raises nothing
+        ))
     return p
